@@ -46,6 +46,10 @@ def _track(ai, ctx):
     m = wire.make_meta(ai, ctx, 'set_tempo', {'tempo': smf.sym('M2', 0xffffff)}, 0); msgs.append(m)
     m = n(3); m.attrs['time'] = 0; msgs.append(m)
     m = n(4); m.attrs['time'] = P('t4'); msgs.append(m)
+    # a meta event of a type the library has no name for, with a delta of its own: its time is converted like any other
+    from ..fold import ClassRef
+    m = ai.apply(ClassRef(ctx.p.cls(wire.META_MOD, 'UnknownMetaMessage')), [0x60], {'data': AList([1, 2], 'tuple'), 'time': 0}, None)
+    m.attrs['time'] = P('t6'); m.stores.clear(); msgs.append(m)
     m = wire.make_meta(ai, ctx, 'end_of_track', {}, P('t5')); msgs.append(m)
     return AList(msgs, 'MidiTrack')
 
@@ -54,7 +58,7 @@ def expected_times():
     B = P('B')
     d = lambda t, M: t.mul(M).mul(Poly.const(1e-6)).div(B)      # noqa: E731
     D = Poly.const(500000)
-    return [d(P('t1'), D), d(P('t2'), D), d(P('t3'), P('M1')), Poly(), Poly(), d(P('t4'), P('M2')), d(P('t5'), P('M2'))]
+    return [d(P('t1'), D), d(P('t2'), D), d(P('t3'), P('M1')), Poly(), Poly(), d(P('t4'), P('M2')), d(P('t6'), P('M2')), d(P('t5'), P('M2'))]
 
 
 def _as_poly(x):
@@ -92,9 +96,9 @@ def r13_iter(ctx):
                      construct=cons + '::outcomes')
             continue
         items = outs[0].value.items
-        ctx.require(len(items) == len(exp), 'R13.1', f'{inst}.count', w, f'{len(items)} messages yielded for 7 in the track', construct=cons + '::count')
+        ctx.require(len(items) == len(exp), 'R13.1', f'{inst}.count', w, f'{len(items)} messages yielded for {len(exp)} in the track', construct=cons + '::count')
         labels = ['note before any tempo', 'first set_tempo itself', 'note after first set_tempo', 'second set_tempo at delta 0',
-                  'note at delta 0', 'note after second set_tempo', 'end_of_track']
+                  'note at delta 0', 'note after second set_tempo', 'unknown meta event', 'end_of_track']
         for i, (x, e) in enumerate(zip(items, exp)):
             t = _as_poly(x.attrs.get('time')) if isinstance(x, AObj) else None
             ok = t is not None and t.close_to(e)
